@@ -35,5 +35,25 @@ def fill(register, pending):
              'observation covers the public inspection surface only; sampled histories (not exhaustive); GIL build only',
              'deterministic simulation: seeded stateful histories with before/after observation snapshots and weakref/gc oracles',
              'DESIGN.md section 4 (C14)', 'checks/c14_alias.py')
-    for pid in ('C11', 'C12', 'C13', 'C17', 'C18'):
+    register('C12', 'exploration',
+             'seeded histories (thorough: plus an exhaustive sweep of all histories of length <= 2 over a 14-symbol alphabet) of '
+             'register / register_class / dataclass / unregister with argument faults, warnings-as-errors, raising warning hooks and '
+             'raising metaclass hooks, applied to the real registry and to a map model; behaviour, Python mirror (get with and '
+             'without class, tree_flatten_one_level) and engine snapshot compared with the model after every step, atomicity after '
+             'every failing step, reversibility at the end',
+             'model = dict[(namespace, type)] -> registration with lookup N then global then heuristics; engine snapshot read through '
+             'the guarded hook; asynchronous exceptions not injected',
+             'deterministic simulation: seeded stateful operation+fault histories against an executable reference model',
+             'DESIGN.md section 4 (C12)', 'checks/c12_registry.py')
+    register('C17', 'exploration',
+             'seeded search over interleavings of 2-4 real threads at callback / Python-line / lock granularity (sticky, uniform, '
+             'PCT d<=3, single-switch sweeps) across six scenario templates; oracles: per-operation equality with the solo '
+             'reference, exactly-once racing registration, old-or-new per node for flatten overlapping re-registration, '
+             'exactly-once delivery of a shared iterator, deterministic deadlock detection through the instrumented engine '
+             'rwlocks and the simulated registry lock, quiescent registry/guard/lock invariants',
+             'GIL build only (free-threaded code paths not compiled); the interleaving granularity is complete for the GIL build '
+             'at steady state (see DESIGN.md 1.1); schedules are sampled, not enumerated',
+             'deterministic simulation: baton-passing real threads under a seeded scheduler with lock seams and schedule-tape replay',
+             'DESIGN.md section 4 (C17)', 'checks/c17_threads.py')
+    for pid in ('C11', 'C13', 'C18'):
         pending[pid] = 'simulation check designed (DESIGN.md section 4) but not yet built at this commit; not claimed until its engine is committed'
